@@ -60,6 +60,16 @@ CODEGEN_PLAN = [
          'as': 'set_arity_to_optional__element', 'param': 'value_arity', 'type': 'Arity'},
     ]},
     {'file': 'codegen/src/grammar/generated.rs', 'items': [
+        {'kind': 'type', 'match': r'^pub enum DirectiveExpression$', 'group': 'flags'},
+        {'kind': 'type', 'match': r'^pub struct StringDirective$', 'group': 'flags'},
+        {'kind': 'type', 'match': r'^pub struct NoSkipWsDirective$', 'group': 'flags'},
+        {'kind': 'type', 'match': r'^pub struct ExportDirective$', 'group': 'flags'},
+        {'kind': 'type', 'match': r'^pub struct PositionDirective$', 'group': 'flags'},
+        {'kind': 'type', 'match': r'^pub struct MemoizeDirective$', 'group': 'flags'},
+        {'kind': 'type', 'match': r'^pub struct LeftrecDirective$', 'group': 'flags'},
+        {'kind': 'type', 'match': r'^pub struct CheckDirective$', 'group': 'flags'},
+        {'kind': 'type', 'match': r'^pub type NamespacedRustName = Vec<RustNamePart>$', 'group': 'flags'},
+        {'kind': 'type', 'match': r'^pub type RustNamePart = String$', 'group': 'flags'},
         {'kind': 'type', 'match': r'^pub type HexChar = char$'},
         {'kind': 'type', 'match': r'^pub struct HexaEscape$'},
         {'kind': 'type', 'match': r'^pub struct Utf8Escape$'},
@@ -70,6 +80,13 @@ CODEGEN_PLAN = [
         {'kind': 'type', 'match': r'^pub struct SimpleEscapeBackslash$'},
         {'kind': 'type', 'match': r'^pub struct SimpleEscapeQuote$'},
         {'kind': 'type', 'match': r'^pub struct SimpleEscapeDQuote$'},
+    ]},
+    {'file': 'codegen/src/rule.rs', 'items': [
+        {'kind': 'type', 'match': r'^pub struct RuleFlags$', 'group': 'flags'},
+        # X14: Rule::flags reads only self.directives; it is emitted as a function of that field (the Rule struct would
+        # drag the whole front-end AST into the file)
+        {'kind': 'method_as_fn', 'match': r'^impl Rule$', 'method': 'flags', 'as': 'Rule', 'group': 'flags',
+         'subst': [('(&self)', '(directives: &Vec<DirectiveExpression>)')], 'body_subst': [('&self.directives', 'directives')]},
     ]},
     {'file': 'codegen/src/string.rs', 'items': [
         {'kind': 'impl_as_fns', 'match': r'^impl From<&HexaEscape> for char$', 'as': 'HexaEscape_to_char',
